@@ -604,10 +604,6 @@ theorem agree_deleteConsumer {g : Group} (h : Agree g) (c : Name) : Agree (delet
 
 /-! ### add_pending (deliveries) -/
 
-/-- one delivery with its share of the counter updates (`add_pending` performs them in bulk at the end) -/
-def addOne (c : Name) (g : Group) (id : Id) : Group :=
-  { addEntry c g id with consumers := consAdjust c (· + 1) g.consumers, totalPending := g.totalPending + 1 }
-
 def bump (c : Name) (g : Group) (n : Nat) : Group :=
   { g with consumers := consAdjust c (· + n) g.consumers, totalPending := g.totalPending + n }
 
